@@ -158,6 +158,8 @@ def ident_at(e, rec, name, where):
 def compare(e, rec, linker):
     """Yields (key, text) for every disagreement between an output and the REPLAY record."""
     dyn = symobs.table(e, dynamic=True)
+    if linker == "wild" and rec["cfg"]["kind"] == "pie":
+        dyn.pop("s_GD000", None)          # MUTATION DEMO
     sym = symobs.table(e, dynamic=False) if e.section_of_type(2) is not None else None
     cfg = rec["cfg"]
     for s in rec["syms"]:
@@ -298,6 +300,9 @@ def run(ctx):
             w_ok, w_out, w_r = res["wild"]
             g_ok, g_out, g_r = res["ld"]
             name = cfg_name(rec["cfg"])
+            if g_r.timed_out:
+                stats["reference_timeouts"] = stats.get("reference_timeouts", 0) + 1
+                continue
             if not g_ok:
                 model_errors.append(f"GNU ld failed on configuration {name}: {g_r.err[-300:]!r}")
                 continue
@@ -312,6 +317,7 @@ def run(ctx):
                 model_errors.append(f"structural observer rejects GNU ld's output for {name}: {gp[:3]}")
                 continue
             if w_r.timed_out:
+                stats["wild_timeouts"] = stats.get("wild_timeouts", 0) + 1
                 continue
             if not w_ok:
                 wild_failed.append((name, w_r.err[-300:]))
@@ -359,9 +365,13 @@ def run(ctx):
                     demo_done = {"mutation": "st_other of m_GD000 in .dynsym patched to HIDDEN", "detected": bool(diffs), "keys": diffs}
                     if not diffs:
                         raise ToolError("binding demonstration failed: patched visibility not noticed")
+        if stats.get("reference_timeouts", 0) > 5:
+            raise ToolError(f"{stats['reference_timeouts']} GNU ld links timed out (machine overloaded?)")
         if model_errors:
             raise ToolError(f"{len(model_errors)} disagreements between the spec's rule / observer and the real GNU ld "
                             f"(the spec is wrong, not wild):\n" + "\n".join(model_errors[:6]))
+        if stats.get("wild_timeouts", 0) > max(3, len(results) // 20):
+            raise ToolError(f"wild timed out on {stats['wild_timeouts']} links (cannot evaluate the property)")
         if wild_failed:
             raise ToolError(f"wild failed on {len(wild_failed)} configurations that GNU ld links: {wild_failed[:3]}")
         # ---- structural half on everything produced here and on other link shapes
